@@ -11,7 +11,7 @@
     statement is kept as [C19_parse_marshal_full_statement]. *)
 From Coq Require Import List NArith ZArith Bool Lia Permutation.
 From Coq.Strings Require Import Byte.
-From RDPGW Require Import Lib.Bytes Gen.Consts Model.RdpFile Proofs.RdpFacts.
+From RDPGW Require Import Lib.Bytes Gen.Consts Model.RdpFile Proofs.RdpFacts Gen.Facts.
 Import ListNotations.
 Open Scope Z_scope.
 
@@ -100,3 +100,33 @@ Example C19_example_malformed :
   parse [x61; x3a; x69; x3a; x35; x0a; x6e; x6f; x63; x6f; x6c; x6f; x6e; x0a] = None /\
   parse [x61; x3a; x71; x3a; x35; x0a] = None /\ parse [x61; x3a; x69; x3a; x78; x0a] = None.
 Proof. repeat split; vm_compute; reflexivity. Qed.
+
+(** The decisions of the transcribed functions, as the source has them now (regenerated by the
+    translator: conditions, case labels, returns, branches, go and defer statements in source order).
+    The model is a transcription of exactly this text. *)
+Theorem C19_decisions_as_transcribed :
+  DECISIONS_rdpUnmarshal =
+    [[x66; x6f; x72; x20; x73; x63; x61; x6e; x6e; x65; x72; x2e; x53; x63; x61; x6e; x28; x29] (* for scanner.Scan() *);
+     [x69; x66; x20; x6c; x69; x6e; x65; x3d; x3d; x22; x22; x7c; x7c; x73; x74; x72; x69; x6e; x67; x73; x2e; x48; x61; x73; x50; x72; x65; x66; x69; x78; x28; x6c; x69; x6e; x65; x2c; x22; x23; x22; x29] (* if line==""||strings.HasPrefix(line,"#") *);
+     [x63; x6f; x6e; x74; x69; x6e; x75; x65] (* continue *);
+     [x69; x66; x20; x6c; x65; x6e; x28; x66; x69; x65; x6c; x64; x73; x29; x21; x3d; x33] (* if len(fields)!=3 *);
+     [x72; x65; x74; x75; x72; x6e; x20; x6e; x69; x6c; x2c; x66; x6d; x74; x2e; x45; x72; x72; x6f; x72; x66; x28; x22; x6d; x61; x6c; x66; x6f; x72; x6d; x65; x64; x20; x6c; x69; x6e; x65; x20; x25; x64; x3a; x20; x25; x71; x22; x2c; x63; x2c; x6c; x69; x6e; x65; x29] (* return nil,fmt.Errorf("malformed line %d: %q",c,line) *);
+     [x73; x77; x69; x74; x63; x68; x20; x74] (* switch t *);
+     [x63; x61; x73; x65; x20; x22; x69; x22] (* case "i" *);
+     [x69; x66; x20; x65; x72; x72; x21; x3d; x6e; x69; x6c] (* if err!=nil *);
+     [x72; x65; x74; x75; x72; x6e; x20; x6e; x69; x6c; x2c; x66; x6d; x74; x2e; x45; x72; x72; x6f; x72; x66; x28; x22; x63; x61; x6e; x6e; x6f; x74; x20; x70; x61; x72; x73; x65; x20; x69; x6e; x74; x65; x67; x65; x72; x20; x61; x74; x20; x6c; x69; x6e; x65; x20; x25; x64; x3a; x20; x25; x73; x22; x2c; x63; x2c; x6c; x69; x6e; x65; x29] (* return nil,fmt.Errorf("cannot parse integer at line %d: %s",c,line) *);
+     [x63; x61; x73; x65; x20; x22; x73; x22] (* case "s" *);
+     [x63; x61; x73; x65; x20; x22; x62; x22] (* case "b" *);
+     [x64; x65; x66; x61; x75; x6c; x74] (* default *);
+     [x72; x65; x74; x75; x72; x6e; x20; x6e; x69; x6c; x2c; x66; x6d; x74; x2e; x45; x72; x72; x6f; x72; x66; x28; x22; x6d; x61; x6c; x66; x6f; x72; x6d; x65; x64; x20; x6c; x69; x6e; x65; x20; x25; x64; x3a; x20; x25; x73; x22; x2c; x63; x2c; x6c; x69; x6e; x65; x29] (* return nil,fmt.Errorf("malformed line %d: %s",c,line) *);
+     [x72; x65; x74; x75; x72; x6e; x20; x6d; x70; x2c; x6e; x69; x6c] (* return mp,nil *)] /\
+  DECISIONS_rdpMarshal =
+    [[x63; x61; x73; x65; x20; x62; x6f; x6f; x6c] (* case bool *);
+     [x69; x66; x20; x76; x3d; x3d; x74; x72; x75; x65] (* if v==true *);
+     [x63; x61; x73; x65; x20; x69; x6e; x74] (* case int *);
+     [x63; x61; x73; x65; x20; x73; x74; x72; x69; x6e; x67] (* case string *);
+     [x64; x65; x66; x61; x75; x6c; x74] (* default *);
+     [x72; x65; x74; x75; x72; x6e; x20; x6e; x69; x6c; x2c; x66; x6d; x74; x2e; x45; x72; x72; x6f; x72; x66; x28; x22; x65; x72; x72; x6f; x72; x20; x6d; x61; x72; x73; x68; x61; x6c; x6c; x69; x6e; x67; x22; x29] (* return nil,fmt.Errorf("error marshalling") *);
+     [x72; x65; x74; x75; x72; x6e; x20; x62; x2e; x42; x79; x74; x65; x73; x28; x29; x2c; x6e; x69; x6c] (* return b.Bytes(),nil *)].
+Proof. vm_compute. repeat split; reflexivity. Qed.
+Print Assumptions C19_decisions_as_transcribed.
